@@ -773,6 +773,13 @@ def c10_binary(V, tier):
             with open(os.path.join(root, "pkg", "test_fill_%d.py" % k), "w") as fh:
                 fh.write("import pytest\n\n\n@pytest.fixture\ndef fill_%d():\n    return 1\n\n\ndef test_f(fill_%d):\n    pass\n" % (k, k))
         f = os.path.join(root, "test_f.py")
+        if i % 4 == 1 and not link:
+            # the document lives in a sub-directory whose NAME is one of the workspace's exclude patterns (a bare name is a
+            # glob that matches only a path equal to it: the document is neither excluded from the scan nor from the editor)
+            os.makedirs(os.path.join(root, "pkgdoc"), exist_ok=True)
+            f = os.path.join(root, "pkgdoc", "test_f.py")
+            with open(os.path.join(root, "pyproject.toml"), "w") as fh:
+                fh.write('[tool.pytest-language-server]\nexclude = ["pkgdoc", "unrelated_dir/**"]\n')
         if link:
             shared = os.path.join(os.path.dirname(root), "shared")
             os.makedirs(shared, exist_ok=True)
